@@ -1215,8 +1215,8 @@ impl SecureMemoryPool {
         // due to RefCell not being Sync. Thread-local caches will be cleared
         // when threads exit or when they access the cache and find it should be cleared.
 
-        // Clear allocation tracking
-        self.active_allocations.clear();
+        // Outstanding allocations stay tracked: they are still live and will be released
+        // through deallocate_internal, which must find them in active_allocations.
 
         Ok(())
     }
